@@ -193,7 +193,8 @@ pub fn plan_lifecycle_lp(w: &World, knobs: &Knobs, actor: &mut Actor, l: &Ledger
                     2 => flow.push((tx1(ix::decrease_liquidity_v2(&la, p.liquidity.max(1), 0, 0)), "decrease_liquidity".into())),
                     3 => flow.push((tx1(ix::collect_fees_v2(&la)), "collect_fees".into())),
                     _ => {
-                        let (lo, hi) = pick_range(rng, l, &p.whirlpool, &ppool);
+                        let (lo, hi) = if rng.chance(1, 3) { pick_any_range(rng, l, &p.whirlpool, &ppool) } else { pick_range(rng, l, &p.whirlpool, &ppool) };
+                        let (lo, hi) = (lo.clamp(MIN_TICK - 70_000, MAX_TICK + 70_000), hi.clamp(MIN_TICK - 70_000, MAX_TICK + 70_000));
                         let sp = ppi.keys.tick_spacing;
                         let r = ix::RepositionAccounts {
                             liq: la,
